@@ -264,9 +264,9 @@ def dkl_gaussian(m1, P1, m2, P2):
     if P1.shape[0] != dim:
         raise ValueError("incompatible dimensions for m1 and P1")
 
-    d1 = max(detsh(P1), tiny)
-    d2 = max(detsh(P2), tiny)
-    dkl = np.log(d1 / d2) + np.trace(np.dot(P2, inv(P1))) - dim
+    ld1 = np.sum(np.log(eigvalsh(P1)))
+    ld2 = np.sum(np.log(eigvalsh(P2)))
+    dkl = ld1 - ld2 + np.trace(np.dot(P2, inv(P1))) - dim
     dkl += np.dot(np.dot((m1 - m2).T, P2), (m1 - m2))
     dkl /= 2
     return dkl
@@ -298,8 +298,8 @@ def dkl_wishart(a1, B1, a2, B2):
         raise ValueError("incompatible dimensions for B1 and B2")
 
     dim = B1.shape[0]
-    d1 = max(detsh(B1), tiny)
-    d2 = max(detsh(B2), tiny)
+    d1 = detsh(B1)
+    d2 = detsh(B2)
     lgc = dim * (dim - 1) * math.log(np.pi) / 4
     lg1 = lgc
     lg2 = lgc
